@@ -23,7 +23,9 @@ ASSUMPTIONS = [
     "absolute parser: the reference is RELATIVE_BASE (symbolic); custom-format parser: the reference is the system "
     "clock (clock stub = one arbitrary instant per API call), as the property states",
     "date theory (symx.dates) stands for CPython datetime/calendar; symbolic regex stands for re/regex on templates",
-    "kernel tasks call the real utils functions with a settings stub object carrying the symbolic preference",
+    "kernel tasks call the real utils functions with a settings stub object carrying the symbolic preference; the same "
+    "three kernels are cross-checked by a second engine (crosshair-tool on ch/c08_kernels.py, PEP-316 contracts); its "
+    "'Not confirmed' answers are inconclusive and never fail the check",
 ]
 
 
@@ -306,3 +308,66 @@ def _native_kernel(spec):
 
 def classify_known(spec, verdict, known):
     return None
+
+
+# ------------------------------------------------------------------------------------------------ second engine
+def extra_phase(tier, seed, V):
+    """Cross-check of the kernel tasks with a second engine: crosshair-tool on ch/c08_kernels.py (the same real
+    functions, PEP-316 contracts).  'Confirmed over all paths' is recorded; 'Not confirmed' is inconclusive (never a
+    failure); a counterexample is replayed natively before it is reported."""
+    import os
+    import re
+    import subprocess
+    import time
+    from symx import runner
+    exe = os.path.join(runner.VERIF, ".venv", "bin", "crosshair")
+    src = os.path.join(runner.VERIF, "ch", "c08_kernels.py")
+    if not os.path.exists(exe):
+        return {"crosshair": "not installed"}
+    lines = open(src).read().splitlines()
+    funcs = {}
+    for i, ln in enumerate(lines, 1):
+        m = re.match(r"def (last_day|correct_day|correct_month)\(", ln)
+        if m:
+            funcs[m.group(1)] = i
+    t0 = time.time()
+    procs = {}
+    env = dict(os.environ, VERIF_REPO=runner.REPO)
+    tmo = 40 if tier == "quick" else 240
+    for name, line in funcs.items():
+        procs[name] = subprocess.Popen([exe, "check", "--report_all", "--per_condition_timeout", str(tmo), "%s:%d" % (src, line + 1)],
+                                       stdout=subprocess.PIPE, stderr=subprocess.STDOUT, text=True, env=env, cwd=runner.VERIF)
+    out = {}
+    for name, p in procs.items():
+        try:
+            txt = p.communicate(timeout=tmo * 3 + 60)[0]
+        except subprocess.TimeoutExpired:
+            p.kill()
+            txt = "timeout"
+        if "Confirmed over all paths" in txt:
+            out[name] = "confirmed over all paths"
+        elif "error:" in txt:
+            m = re.search(r"when calling \w+\((.*?)\) \(which", txt)
+            args = dict(re.findall(r"(\w+) ?= ?(-?\d+)", m.group(1))) if m else {}
+            out[name] = "counterexample %s" % args
+            try:
+                a = {k: int(v) for k, v in args.items()}
+                if name == "last_day":
+                    spec = {"fn": "h_kernel", "args": {"which": "last"}, "witness": {"y": a["y"], "m": a["m"]}}
+                else:
+                    w = {"x_year": a["y"], "x_month": a["m"], "x_day": a["d"], "x_hour": 0, "x_minute": 0, "x_second": 0,
+                         "x_microsecond": 0, "cur": a["cur"]}
+                    w["PREFER_DAY_OF_MONTH" if name == "correct_day" else "PREFER_MONTH_OF_YEAR"] = a["pref"]
+                    spec = {"fn": "h_kernel", "args": {"which": "day" if name == "correct_day" else "month"}, "witness": w}
+                ok, verdict, path = runner.replay_native(ID, spec, "%s_crosshair_%s" % (tier, name))
+                if ok is True:
+                    V.violations.append((path, "[crosshair:%s] %s" % (name, verdict.get("detail", ""))))
+                    out[name] += " (reproduced natively)"
+                else:
+                    out[name] += " (did not reproduce natively: ignored)"
+            except Exception as e:  # noqa
+                out[name] += " (could not be replayed: %s)" % e
+        else:
+            out[name] = "not confirmed within %d s (inconclusive)" % tmo
+    return {"second_engine_crosshair": {"tool": "crosshair-tool 0.0.110", "harness": "ch/c08_kernels.py", "results": out,
+                                        "wall_s": round(time.time() - t0, 1)}}
